@@ -90,9 +90,10 @@ def run(ck: common.Check):
         "symbols have non-empty names (Sym.__init__ enforces is_valid_name); the environment is used with stack "
         "discipline (a pushed PrintEnv is dropped before its parent is used again), which the correspondence checks on "
         "every printed procedure",
-        "C17_expr_roundtrip holds under wf_expr: literals are non-negative (str(-3) reads back as unary minus of 3: same "
-        "value, other tree) and the left operand of a comparison is not a comparison; without the second condition the "
-        "statement is refuted (C17_expr_roundtrip_refuted: `(a == b) == c` prints as the chain `a == b == c`)",
+        "C17_expr_roundtrip holds under wf_expr: the expression is inside the parsed operator language and its literals are "
+        "non-negative (str(-3) reads back as unary minus of 3: same value, other tree); the former restriction on "
+        "comparisons is gone with the repaired printer, and C17_expr_roundtrip_prefix_refuted keeps the pre-fix printer's "
+        "counterexample (`(a == b) == c` printed as the chain `a == b == c`) as a regression witness",
         "the parser model covers variables, literals, indexing, unary minus and the 12 binary operators; window slices, "
         "stride(), extern calls and config reads are printed by the model (and compared with the real text) but only "
         "re-parsed by the real front end in the round-trip search",
@@ -221,6 +222,16 @@ def run(ck: common.Check):
     ck.cov["evaluations"] += stats.get("roundtrip_tried", 0)
     if by_key:
         ck.log("search findings by key: %s" % {k: len(v) for k, v in by_key.items()})
+    # regression cases that must pass, and witnesses of the listed findings (they run before the random programs)
+    if stats.get("regress_cases_run", 0) < 3:
+        ck.broken_obligation("regression:comparison-chain-not-run", "only %s regression cases ran" % stats.get("regress_cases_run", 0))
+    ck.obligation("regression:print:regress:comparison-chain",
+                  stats.get("regress_cases_run", 0) >= 3 and not stats.get("findings_in:regress:comparison-chain", 0),
+                  "a comparison on the left of a comparison does not survive the round trip")
+    ck.cov["witnesses"] = {k[len("findings_in:"):]: v for k, v in stats.items() if k.startswith("findings_in:witness")}
+    for f in ck.known:
+        if f.get("status", "open") == "open" and f["id"] not in ck.known_seen:
+            ck.log("listed finding %s did not show on this run" % f["id"])
     if stats.get("roundtrip_tried", 0) and stats.get("roundtrip_parsed", 0) < stats["roundtrip_tried"] // 4:
         ck.broken_obligation("search-collapse", "only %d of %d printed procedures were parsed again"
                              % (stats.get("roundtrip_parsed", 0), stats["roundtrip_tried"]))
@@ -232,7 +243,7 @@ def run(ck: common.Check):
         "random accepted scheduling operations (sched.candidates plus operations that introduce symbols with colliding names; "
         "unroll_loop, cut_loop, divide_loop, inline, stage_mem, bind_expr, specialize favoured). A procedure case is "
         "distinct by its exported term; for the `names` streams it is non-trivial when two different symbols share a name. "
-        "expressions: random trees over the operator language (40% including negative literals and comparison chains), "
+        "expressions: random trees over the operator language (all shapes, including negative literals and comparisons nested on the left of comparisons), "
         "printed by the real _print_expr and read back by CPython + pyparser.Parser; token strings: random surface syntax "
         "with missing/redundant parentheses; non-trivial = longer than one atom. search: every printed procedure is checked "
         "against the scope rule (two distinct symbols visible together never print the same; a name is stable in its scope) "
